@@ -58,6 +58,11 @@ def run(ctx):
         menu = [("k2a", [L], 1), ("k2m1", [2, L], 1), ("k2mat", [L], 0), ("k2seed", [L], 0), ("k2tiny", [L], 0),
                 ("k2huge", [2], 0), ("k2eps2", [2], 0), ("k2off", [2], 0), ("k2w1", [2], 0), ("k2w1u", [2], 0)]
     ps = ml.e2_plans(ctx, menu, MONS)
+    # eleven clusters (block initial labelling: cluster k = level k) and an upper-triangular sparsity weight
+    ps += ml.e2_plans(ctx, [("k11", [2], 0)], MONS, conform=False,
+                      inits=lambda d: [tuple(i // 4 for i in range(d.Tp)), tuple(10 - i // 4 for i in range(d.Tp))])
+    ps += ml.e2_plans(ctx, [("k2triu", [3], 0)], MONS, conform=False,
+                      inits=lambda d: ml.all_labellings(d.Tp, d.K)[::17])
     # the estimator flag in its other truth-valued forms (block initial labellings: the flag, not the labelling, varies)
     ps += ml.e2_plans(ctx, [("k2nptrue", [3], 0), ("k2int1", [3], 0), ("k2npfalse", [3], 0)], MONS, conform=False,
                       inits=lambda d: ml.all_labellings(d.Tp, d.K)[::17])
